@@ -132,7 +132,7 @@ func runC03(b []byte, cfg c03Cfg) (sig, msg string) {
 	}
 	k1 := cfg.Size == 0 && autodetectCannotSucceed(b, cfg.Reader)
 	limit := len(b)/8 + 16
-	calls := 0
+	calls, stalls := 0, 0
 	eof := false
 	if p := mc.Catch(func() {
 		for calls < limit+8 {
@@ -144,15 +144,14 @@ func runC03(b []byte, cfg c03Cfg) (sig, msg string) {
 				break
 			}
 			if !ok && consumed() <= before {
-				sig, msg = "call-without-progress", fmt.Sprintf("call %d returned %v without consuming input (offset %d)", calls, err, before)
-				return
+				stalls++ // an error without consuming input is allowed once in a while; a spin shows as the call bound being exceeded
 			}
 		}
 	}); p != nil {
 		return "panic", fmt.Sprintf("panic after %d calls: %v", calls, p)
 	}
 	if sig == "" && !eof {
-		sig, msg = "eof-not-reached", fmt.Sprintf("%d calls on %d bytes without reaching ErrNoMorePackets", calls, len(b))
+		sig, msg = "eof-not-reached", fmt.Sprintf("%d calls on %d bytes without reaching ErrNoMorePackets (%d of them returned an error without consuming input)", calls, len(b), stalls)
 	}
 	if sig == "" && calls > limit {
 		sig, msg = "too-many-calls", fmt.Sprintf("%d calls needed for %d bytes (bound %d)", calls, len(b), limit)
